@@ -29,6 +29,9 @@ enum Fate {
     /// running, its thread blocked inside a task until `run` has returned, with this many short
     /// commands queued behind that task - so the system's Stop is found at the end of a backlog
     Busy(usize),
+    /// running; a task on it creates a further arbiter (an arbiter of the same system made on a
+    /// thread other than the system thread), which must be stopped too
+    SpawnsChild,
 }
 const FATES: [Fate; 4] = [Fate::EarlyStopJoin, Fate::HandleDropped, Fate::Running, Fate::RunningPendingTask];
 
@@ -91,7 +94,7 @@ fn case_from(v: &Value) -> Case {
         Second::FromOtherThreadAfter(num(s) as i32)
     };
     Case {
-        fates: v["fates"].as_array().unwrap().iter().map(|f| match f.as_str().unwrap() { "EarlyStopJoin" => Fate::EarlyStopJoin, "HandleDropped" => Fate::HandleDropped, "Running" => Fate::Running, b if b.starts_with("Busy") => Fate::Busy(num(b) as usize), _ => Fate::RunningPendingTask }).collect(),
+        fates: v["fates"].as_array().unwrap().iter().map(|f| match f.as_str().unwrap() { "EarlyStopJoin" => Fate::EarlyStopJoin, "HandleDropped" => Fate::HandleDropped, "Running" => Fate::Running, "SpawnsChild" => Fate::SpawnsChild, b if b.starts_with("Busy") => Fate::Busy(num(b) as usize), _ => Fate::RunningPendingTask }).collect(),
         origin,
         code: v["code"].as_i64().unwrap() as i32,
         second,
@@ -113,6 +116,8 @@ struct Outcome {
     run_result: Result<i32, String>,
     /// per arbiter: did its thread end (join returned / exit flag set) within the watchdog
     ended: Vec<Option<bool>>,
+    /// arbiters that were created by a task on another arbiter
+    child_ended: Vec<bool>,
 }
 
 fn issue(sys: &System, code: i32, second: Second) {
@@ -128,6 +133,7 @@ fn run_case(c: &Case) -> Outcome {
     let mut arbs: Vec<Option<Arbiter>> = vec![];
     let mut flags: Vec<Arc<AtomicBool>> = vec![];
     let mut gates = vec![];
+    let mut children: Vec<Arbiter> = vec![];
     let backlog_ran = Arc::new(std::sync::atomic::AtomicUsize::new(0));
     for f in &c.fates {
         let arb = Arbiter::new();
@@ -155,6 +161,17 @@ fn run_case(c: &Case) -> Outcome {
             Fate::Running => arbs.push(Some(arb)),
             Fate::RunningPendingTask => {
                 arb.spawn(std::future::pending());
+                arbs.push(Some(arb));
+            }
+            Fate::SpawnsChild => {
+                let (ctx, crx) = channel::<Arbiter>();
+                arb.spawn_fn(move || {
+                    let child = Arbiter::new();
+                    let _ = ctx.send(child);
+                });
+                if let Ok(child) = crx.recv_timeout(Duration::from_secs(5)) {
+                    children.push(child);
+                }
                 arbs.push(Some(arb));
             }
             Fate::Busy(k) => {
@@ -253,6 +270,7 @@ fn run_case(c: &Case) -> Outcome {
     // the busy arbiters find their backlog (queued commands, then the system's Stop) only now
     drop(gates);
     // every arbiter created before the stop must end
+    let mut child_ended = vec![];
     let mut ended = vec![];
     for (i, a) in arbs.into_iter().enumerate() {
         match (a, fates[i]) {
@@ -274,7 +292,15 @@ fn run_case(c: &Case) -> Outcome {
             }
         }
     }
-    Outcome { run_result, ended }
+    for child in children {
+        let (tx, rx) = channel();
+        std::thread::spawn(move || {
+            let _ = child.join();
+            let _ = tx.send(());
+        });
+        child_ended.push(rx.recv_timeout(crate::WATCHDOG / 2).is_ok());
+    }
+    Outcome { run_result, ended, child_ended }
 }
 
 fn check(c: &Case, o: &Outcome) -> Option<(String, String)> {
@@ -288,6 +314,9 @@ fn check(c: &Case, o: &Outcome) -> Option<(String, String)> {
             return Some((sig.into(), format!("run returned exit code {code}, the first stop_with_code was {} (second stop: {:?})", c.code, c.second)));
         }
         Err(e) => return Some(("C09:run-failed".into(), format!("run failed: {e}"))),
+    }
+    if o.child_ended.iter().any(|e| !*e) {
+        return Some(("C09:arbiter-created-on-another-arbiters-thread-not-stopped".into(), format!("an arbiter that a task on another arbiter had created (same system, created before the stop) was still running {:?} after the system stopped", crate::WATCHDOG / 2)));
     }
     for (i, e) in o.ended.iter().enumerate() {
         if *e == Some(false) {
@@ -309,7 +338,7 @@ fn enumerate(max_n: usize) -> Vec<Case> {
         for fates in fate_lists {
             let mut origins = vec![Origin::BeforeRun, Origin::TaskOnSystemThread, Origin::ForeignThread];
             for (k, f) in fates.iter().enumerate() {
-                if matches!(f, Fate::Running | Fate::RunningPendingTask) {
+                if matches!(f, Fate::Running | Fate::RunningPendingTask | Fate::SpawnsChild) {
                     origins.push(Origin::Arbiter(k));
                     origins.push(Origin::ArbiterThenDies(k));
                 }
@@ -333,6 +362,17 @@ fn enumerate(max_n: usize) -> Vec<Case> {
                     }
                 }
             }
+        }
+    }
+    out
+}
+
+/// Arbiters created from different threads of one system.
+fn enumerate_children() -> Vec<Case> {
+    let mut out = vec![];
+    for fates in [vec![Fate::SpawnsChild], vec![Fate::SpawnsChild, Fate::Running], vec![Fate::Running, Fate::SpawnsChild], vec![Fate::SpawnsChild, Fate::SpawnsChild], vec![Fate::SpawnsChild, Fate::EarlyStopJoin]] {
+        for origin in [Origin::BeforeRun, Origin::TaskOnSystemThread, Origin::ForeignThread, Origin::Arbiter(0)] {
+            out.push(Case { fates: fates.clone(), origin, code: 7, second: Second::None, use_run: false });
         }
     }
     out
@@ -457,6 +497,7 @@ pub fn run(args: &Args) -> i32 {
     }
     let max_backlog = args.opt_usize("backlog", args.tier.pick(80, 400));
     cases.extend(enumerate_busy(max_backlog, 20));
+    cases.extend(enumerate_children());
     let mut results = vec![];
     let mut executed = 0usize;
     let mut total_bad = 0usize;
